@@ -368,7 +368,7 @@ func (c *modsetCache) modSpecKeys(ms ModSpec, ptypes map[string]types.Type, m *m
 	case "heap":
 		m.heapAll = true
 		m.why = "modifies heap"
-	case "ghost", "ghostat":
+	case "ghost", "ghostat", "ghostwhere":
 		if g := c.e.db.Ghosts[ms.Name]; g != nil {
 			m.keys[vc.keyGhost(g)] = true
 		}
